@@ -281,6 +281,29 @@ class Ctx:
             self.violation(f'{name}: the implementation raised {type(E).__name__}: {E} on a valid scenario', dict(oracle=name, traceback=tb[-2500:]))
             return None
 
+    def run_finding_demos(self):
+        """Witness programs of the findings listed for this property (known_findings.json entries with a `demo`): each is a small stand-alone program using only the
+        public API that exits 1 when the listed failure shows on the tree under test.  An OPEN finding whose program fails is reported as that known finding
+        (reproduced); a FIXED finding whose program fails again is a violation like any other.  Programs marked tier=thorough run in the thorough tier only."""
+        p = os.path.join(VERIF, 'known_findings.json')
+        if not os.path.exists(p): return
+        for k in json.load(open(p)).get('findings', []):
+            if k.get('property') != self.pid or not k.get('demo'): continue
+            if k.get('demo_tier', 'quick') == 'thorough' and not self.thorough: continue
+            path = os.path.join(VERIF, k['demo'])
+            try:
+                rc, out = sh([PY, path], timeout=int(k.get('demo_timeout', 180)), cwd=self.work, env=dict(PYTHONWARNINGS='ignore', MPLBACKEND='Agg'))
+            except subprocess.TimeoutExpired:
+                self.log(f"witness program of finding {k['id']} timed out (inconclusive)"); continue
+            self.count(('finding-demo', k['id']), nontrivial=True); self.dist('witness programs of listed findings')
+            tail = ' | '.join(l.strip() for l in out.strip().splitlines()[-3:])[:400]
+            if rc == 1:
+                w = dict(finding=k['id'], demo=k['demo'], output_tail=tail)
+                if k.get('status') == 'open': w['finding_key'] = k.get('key')
+                self.violation(f"witness program {k['demo']} of finding {k['id']} fails on this tree: {tail}" if k.get('status') != 'open' else f"{k['id']}: {tail}", w)
+            elif rc != 0:
+                self.log(f"witness program of finding {k['id']} ended with exit code {rc} (neither pass nor the listed failure): {tail}")
+
     def broke(self, kind, what, detail=''):
         self.broken.append(Broken(kind, what, detail))
         self.log(f'{kind.upper()} BROKEN: {what}' + (f'\n{detail}' if detail else ''))
